@@ -1209,6 +1209,13 @@ func (li *layoutInterp) execBinOp(st *lpath, x *ssa.BinOp) {
 	}
 	w, signed, _ := typeWidth(x.Type(), li.p.Arch)
 	res := avInt{signed: signed, bv: bvApply(x.Op, li.refineBits(st, li1), li.refineBits(st, ri1), w, signed)}
+	if x.Op == token.SUB && w > 0 {
+		// x - k is x + (-k) (modulo the width): the addition has the more precise bit transfer (bits below the
+		// lowest set bit of the constant pass through), so `m -= -2048` is judged like `m += 2048`
+		if k, isK := li.refineBits(st, ri1).Const(); isK {
+			res.bv = bvApply(token.ADD, li.refineBits(st, li1), bvConst(uint64(-int64(k)), w), w, signed)
+		}
+	}
 	switch x.Op {
 	case token.ADD:
 		res.lin = li1.lin.Add(ri1.lin)
